@@ -46,6 +46,7 @@ K_AWAKE = -(1 + MINAWAKE)
 NWORLD = 4
 NCONMAX = 48
 NJMAX = 192
+ITER = 10  # the compacted solve runs every iteration on the CPU device (no early exit): keep it small
 
 
 def cases(tier, seed):
@@ -463,7 +464,6 @@ def mj_onestep(mjm, mjd, pre, w):
     mjd.eq_active[:] = pre["eq_active"][w]
   mjd.time = float(pre["time"][w])
   # kinematics of every body must be current before trees are declared asleep
-  keep = (mjd.qfrc_applied.copy(), mjd.xfrc_applied.copy())
   mujoco.mj_forward(mjm, mjd)
   mjd.qacc_warmstart[:] = pre["qacc_warmstart"][w]
   _isl.mj_set_sleep(mjm, mjd, pre["tree_asleep"][w])
@@ -472,7 +472,12 @@ def mj_onestep(mjm, mjd, pre, w):
 
 def lockstep(rec, topo, mjd, pre, mid, post, w, ctx, iterations):
   mjm = topo.mjm
-  mj_onestep(mjm, mjd, pre, w)
+  try:
+    mj_onestep(mjm, mjd, pre, w)
+  except mujoco.FatalError as e:
+    # e.g. "mj_sleep: found sleeping tree in island" after a run-time eq_active toggle on a sleeping tree: MuJoCo refuses the state
+    rec.count("lockstep_mujoco_refuses_state")
+    return
   A1, B1 = post["tree_asleep"][w], np.array(mjd.tree_asleep)
   # gating
   sel = mid["con_world"] == w
@@ -481,7 +486,7 @@ def lockstep(rec, topo, mjd, pre, mid, post, w, ctx, iterations):
   if gw != gm:
     rec.count("lockstep_ungated_contacts")
     return
-  if int(mid["solver_niter"][w]) >= iterations or int(mjd.solver_niter[0]) >= iterations:
+  if int(mid["solver_niter"][w]) >= iterations or int(np.max(mjd.solver_niter)) >= iterations:
     rec.count("lockstep_ungated_iterlimit")
     return
   Sw, Sm_ = A1 >= 0, B1 >= 0
@@ -501,6 +506,12 @@ def lockstep(rec, topo, mjd, pre, mid, post, w, ctx, iterations):
       if topo.near_tol(t, qw) or topo.near_tol(t, qm):
         rec.count("lockstep_ungated_near_tolerance")
         continue
+      qf, xf = pre["qfrc_applied"][w], pre["xfrc_applied"][w]
+      if topo.can_sleep(t, qw, qf, xf)[0] != topo.can_sleep(t, qm, qf, xf)[0]:
+        # the two engines' post-step velocities fall on different sides of the tolerance: a dynamics difference
+        # (contact solver), not a sleep-semantics difference -> belongs to C06/C08/C38
+        rec.count("lockstep_ungated_velocity_side")
+        continue
       rec.viol(
         "lockstep:countdown",
         f"tree {t} countdown {A1[t]} vs MuJoCo {B1[t]} after one step from the same state (before: {pre['tree_asleep'][w].tolist()}, after forward: {mid['tree_asleep'][w].tolist() if mid else None}) {ctx}",
@@ -518,6 +529,11 @@ def lockstep(rec, topo, mjd, pre, mid, post, w, ctx, iterations):
     if any(topo.near_tol(u, awake_q) for u in mates):
       rec.count("lockstep_ungated_near_tolerance")
       return
+    qf, xf = pre["qfrc_applied"][w], pre["xfrc_applied"][w]
+    both_awake = [u for u in mates if not Sw[u] and not Sm_[u]]
+    if any(topo.can_sleep(u, qw, qf, xf)[0] != topo.can_sleep(u, qm, qf, xf)[0] for u in both_awake):
+      rec.count("lockstep_ungated_velocity_side")
+      return
   rec.viol(
     "lockstep:awake_set",
     f"awake set after one step differs from MuJoCo: tree_asleep {A1.tolist()} vs {B1.tolist()} (before: {pre['tree_asleep'][w].tolist()}) {ctx}",
@@ -533,7 +549,7 @@ def build(case, rec):
   integ = str(rng.choice(["Euler", "Euler", "implicitfast"]))
   jac = str(rng.choice(["dense", "sparse"]))
   cone = str(rng.choice(["pyramidal", "elliptic"]))
-  xml, meta = _isl.sleep_scene(case["seed"], ntree=(3, 7), jac=jac, cone=cone, integrator=integ)
+  xml, meta = _isl.sleep_scene(case["seed"], ntree=(3, 7), jac=jac, cone=cone, integrator=integ, iterations=ITER)
   try:
     mjm = mujoco.MjModel.from_xml_string(xml)
   except Exception as e:  # noqa
